@@ -14,7 +14,7 @@ import (
 
 func init() {
 	Registry["C08"] = &Rule{
-		Explanation: "Decides structural necessary conditions of 'garbage collection keeps everything reachable': (1) root set: in DoltDB.GC every dataset visited by IterAll is inserted into one of the two root sets handed to the collector, the collector runs only after the scan succeeded, and pruneUnreferencedDatasets deletes only ids that are neither refs nor working sets; (2) ValueStore.GC: the keeper installed by BeginGC (store and safepoint controller) is gcAddChunk, every return after a successful BeginGC runs the deferred EndGC (and CancelSafepoint), the store root joins the new-generation root set before that generation is marked, old-generation files are added to the store before the final mark and before any swap, and SwapChunksInStore is reached only after every mark phase succeeded; (3) ValueStore.gc phase order: roots saved, pre-finalize safepoint, drained and finalized address sets saved (each error-checked), post-finalize safepoint, sweeper.Finalize last; gcAddChunk records an address before allowing a write; (4) NomsBlockStore: keeperFunc/gcInProgress/gcCycleCounter are written only by lockedBeginGC/lockedEndGC whose callers hold nbs.mu, a second BeginGC is refused, EndGC waits for outstanding reads; (5) keeper honoured: every chunk reader with a keeper parameter calls or forwards it (frozen exceptions: the empty source), forwards it unchanged, a keeper veto is reported as gcBehavior_Block, every gcBehavior result is consumed, front-ends pass nbs.keeperFunc (nil only in the frozen no-dependency set), a Block verdict waits for the GC and retries, and keeper-carrying reads made outside nbs.mu follow a beginRead in the same critical section; (6) markAndSweeper.SaveHashes: a chunk is copied/marked visited only after the reference walker returned without error, walked children become the next round, read/copy errors and a found-count mismatch fail the GC; swapTables installs the new table set only after the manifest update succeeded with the expected lock and the has-cache was purged. Not decided: interleavings with sessions, the safepoint controller's session accounting, archive conversion, correctness of the walker (C09).",
+		Explanation: "Decides structural necessary conditions of 'garbage collection keeps everything reachable': (1) root set: in DoltDB.GC every dataset visited by IterAll is inserted into one of the two root sets handed to the collector, the collector runs only after the scan succeeded, and pruneUnreferencedDatasets deletes only ids that are neither refs nor working sets; (2) ValueStore.GC: the keeper installed by BeginGC (store and safepoint controller) is gcAddChunk, every return after a successful BeginGC runs the deferred EndGC (and CancelSafepoint), the store root joins the new-generation root set before that generation is marked, old-generation files are added to the store before the final mark and before any swap, and SwapChunksInStore is reached only after every mark phase succeeded; (3) ValueStore.gc phase order: roots saved, pre-finalize safepoint, drained and finalized address sets saved (each error-checked), post-finalize safepoint, sweeper.Finalize last; gcAddChunk records an address before allowing a write; (4) NomsBlockStore: keeperFunc/gcInProgress/gcCycleCounter are written only by lockedBeginGC/lockedEndGC whose callers hold nbs.mu, a second BeginGC is refused, EndGC waits for outstanding reads; (5) keeper honoured: every chunk reader with a keeper parameter calls or forwards it (frozen exceptions: the empty source), forwards it unchanged, a keeper veto is reported as gcBehavior_Block, every gcBehavior result is consumed, front-ends pass nbs.keeperFunc (nil only in the frozen no-dependency set), a Block verdict waits for the GC and retries, and keeper-carrying reads made outside nbs.mu follow a beginRead in the same critical section; (6) markAndSweeper.SaveHashes: a chunk is copied/marked visited only after the reference walker returned without error, walked children become the next round, read/copy errors and a found-count mismatch fail the GC; swapTables installs the new table set only after the manifest update succeeded with the expected lock and the has-cache was purged; (7) a chunk put into (or found in) the store's memtable is acknowledged only past a keeper consultation or the no-keeper edge; in a full collection the old generation's tables are swapped only after the new generation's swap succeeded and the new-generation pass is filtered by the file the old-generation pass built. Not decided: interleavings with sessions, the safepoint controller's session accounting, archive conversion, correctness of the walker (C09).",
 		RuleText:    "cut-reachability on the SSA CFG (targets unreachable once the required error-checked calls/edges are removed), closure-binding resolution for callbacks, who-may-write field allowlists, must-hold-lock at call sites, result-value analysis on keeper veto edges",
 		Assumptions: []string{"callee identity is resolved through go/types; interface calls are matched by method name and receiver interface", "a deferred call runs on every return that follows the defer statement", "sync.Cond.L of NomsBlockStore.gcCond is nbs.mu (checked at its construction site)"},
 		Patterns:    []string{"./libraries/doltcore/doltdb", "./store/types", "./store/nbs", "./libraries/utils/errors"},
